@@ -203,7 +203,7 @@ Proof.
   - (* SNew *)
     constructor; sproj; auto; rewrite ?app_nil_r.
     + intros i g E.
-      assert (SA : sall (set_mgrs st (mgrs st ++ [Mg true is_tm 1 (Sh level 1 1 0 0 None [])])) = sall st) by reflexivity.
+      assert (SA : sall (set_mgrs st (mgrs st ++ [Mg true is_tm 1 (Sh level 1 1 0 0 None [] [] BULK_FREE_N)])) = sall st) by reflexivity.
       rewrite SA.
       destruct (Nat.lt_ge_cases i (length (mgrs st))) as [Hlt|Hge].
       * rewrite nth_error_app1 in E by exact Hlt. apply M0. exact E.
@@ -213,7 +213,7 @@ Proof.
         assert (F : Forall (fun t => strk t -> s_issuer t <> length (mgrs st)) (sall st)).
         { eapply Forall_impl; [|exact R]. intros t X S. specialize (X S). lia. }
         constructor; cbn; rewrite ?(cI_zero KR _ _ ltac:(discriminate) F), ?(cI_zero KW _ _ ltac:(discriminate) F); auto; lia.
-    + change (sall (set_mgrs st (mgrs st ++ [Mg true is_tm 1 (Sh level 1 1 0 0 None [])]))) with (sall st).
+    + change (sall (set_mgrs st (mgrs st ++ [Mg true is_tm 1 (Sh level 1 1 0 0 None [] [] BULK_FREE_N)]))) with (sall st).
       rewrite app_length. eapply rng_mono; [|exact R]. lia.
   - (* SAcq *)
     cbn in WF.
